@@ -304,6 +304,18 @@ func init() {
 			}
 			sc.Cfg.ClockUnix = lo + int64(g.Uint64()%uint64(hi-lo))
 			sc.Cfg.ClockOffsetMin = g.Range(-12*60, 14*60)
+			// an application clock has a sub-second part; the Date header
+			// names the second the instant lies in
+			switch g.Intn(4) {
+			case 0:
+				sc.Cfg.ClockNanos = 0
+			case 1:
+				sc.Cfg.ClockNanos = g.Intn(500000000)
+			case 2:
+				sc.Cfg.ClockNanos = 500000000 + g.Intn(500000000)
+			default:
+				sc.Cfg.ClockNanos = []int{1, 499999999, 500000000, 999999999}[g.Intn(4)]
+			}
 		}
 		if *replay != "" {
 			sc, err := readReplayScenario(*replay)
